@@ -386,3 +386,15 @@ package funnel
 //verif:loop 0 invariant forall k in [firstIndex, lastIndex): sameClass(b.recordStatuses[k].Flag, b.recordStatuses[firstIndex].Flag)
 //verif:loop 1 vars m=rangeindex
 //verif:loop 1 invariant m < len(flags) && forall q in [0, m + 1): status.Flag != flags[q]
+
+// ---- C01: a shared destination is poisoned by ANY error that escapes a pass ------------
+// Several source workers write through one destination whose acks come back on one
+// FIFO stream; a pass that fails (for whatever reason, cancellation included) may have
+// left acks unread, so the next pass could take another source's ack for its own.  Every
+// error out of a pass through the shared boundary therefore latches the poison flag,
+// under the boundary's lock, and a poisoned boundary admits no further pass.
+//verif:func (*Worker).doTask(w, ctx, taskNode, b, acker) (err)
+//verif:ensures[any-error-poisons] taskNode.sharedBoundary && called("(*Worker).doTaskAttempt") && err != nil ==> called("(*Bool).Store@poisoned")
+//verif:call[poison-only-true-under-lock] (*Bool).Store@poisoned requires arg1 && called("(*Mutex).Lock") && result_of("(*Worker).doTaskAttempt", 0) != nil
+//verif:call[no-pass-through-a-poisoned-boundary] (*Worker).doTaskAttempt requires !taskNode.sharedBoundary || called("(*Mutex).Lock") && called("(*Bool).Load@poisoned") && !result_of("(*Bool).Load@poisoned", 0)
+//verif:ensures[error-is-the-pass-error] called("(*Worker).doTaskAttempt") ==> err == result_of("(*Worker).doTaskAttempt", 0)
